@@ -265,3 +265,8 @@ def run(ctx):
     ctx.floor('C12.7', 'functions of rip_workspace reachable from apply_patch', len(par7), 4)
     ctx.ob('C12.7', f, 'no-lossy-decode', not lossy, '%d function(s) of rip_workspace reachable from apply_patch, %d strict decode(s); %s' % (len(par7), len(strict), 'no lossy decode' if not lossy else
            '%s decodes with %s: invalid bytes of lines the patch does not touch are rewritten' % (lossy[0][0].path, lossy[0][1].name)), line=lossy[0][1].line if lossy else f.line)
+
+    # ---------------------------------------------------------------- C12.8
+    from .c05 import tmp_unique_in_workspace
+    tmp_unique_in_workspace(ctx, 'C12.8', 'the patch never names it, so the undo log does not record it and a rollback cannot bring it back.', crates=('rip_workspace',))
+    ctx.ob('C12.8', 'workspace', 'workspace-tmp-scanned', True, 'tmp + rename pairs of rip-workspace scanned')
